@@ -103,9 +103,19 @@ func genQOps(t *rapid.T, maxOps int) []qOp {
 
 func genC10(backend string) func(t *rapid.T) c10Scen {
 	return func(t *rapid.T) c10Scen {
-		return c10Scen{Backend: backend, Cap: rapid.IntRange(1, 6).Draw(t, "cap"),
+		s := c10Scen{Backend: backend, Cap: rapid.IntRange(1, 6).Draw(t, "cap"),
 			InflightExpiry: rapid.SampledFrom([]string{"0", "1h", "1ns"}).Draw(t, "ie"),
 			Ops:            genQOps(t, 40)}
+		// The redis element format has whole-second timestamps: what is written back when an in-flight entry is handed
+		// out again differs from what was read only if a second boundary lies in between. One "tick" (sleep until
+		// the next wall-clock second has begun) in an eighth of the redis histories makes that happen.
+		if backend == "redis" && len(s.Ops) >= 3 && rapid.IntRange(0, 7).Draw(t, "tick") == 0 {
+			at := rapid.IntRange(1, len(s.Ops)-1).Draw(t, "tick_at")
+			ops := append([]qOp{}, s.Ops[:at]...)
+			ops = append(ops, qOp{Op: "tick"})
+			s.Ops = append(ops, s.Ops[at:]...)
+		}
+		return s
 	}
 }
 
@@ -515,6 +525,10 @@ func runQueue(f queueFactory, s c10Scen, c *ev.Case) (viol *ev.Violation) {
 			if len(m.inflight()) == 0 || op.Clean {
 				// caller contract: drain before reading. With nothing in flight one call suffices.
 			}
+		case "tick":
+			c.Logf("step %d: tick (next wall-clock second)", i)
+			time.Sleep(time.Until(time.Now().Truncate(time.Second).Add(time.Second + 20*time.Millisecond)))
+			c.Label("second_boundary_crossed")
 		case "close":
 			if !m.open {
 				c.Count("skipped_ops", 1)
